@@ -1686,6 +1686,30 @@ def typed_sender_relations():
       ('union/sender-union-subset', T.Union([R05(), T.Str(), T.Bool()]), T.Union([R05(), T.Str()]), [3], []),
   ]
 
+def numeric_bound_relations():
+  """The grid of numeric bounds on both sides: receiver (min, max) x sender (min, max) over {absent, negative, 0 / 0.0, positive}, for Int
+  and Float, flat and as the element of a List / a Tuple and as a Dict field; the contents are derived from the two ranges."""
+  T = pg().typing
+  grid = [(None, None), (None, 0), (0, None), (None, 5), (-3, None), (0, 0), (-3, 0), (0, 5), (-3, 5)]
+  probes = [-50, -7, -5, -3, -2, -1, 0, 1, 3, 5, 8, 50]
+  def within(v, lo, hi): return (lo is None or v >= lo) and (hi is None or v <= hi)
+  out = []
+  for tname, mk, conv in (('int', lambda lo, hi: T.Int(min_value=lo, max_value=hi), int),
+                          ('float', lambda lo, hi: T.Float(min_value=None if lo is None else float(lo), max_value=None if hi is None else float(hi)), float)):
+    for rlo, rhi in grid:
+      for slo, shi in grid:
+        inside = [conv(v) for v in probes if within(v, rlo, rhi) and within(v, slo, shi)][:1]
+        outside = [conv(v) for v in probes if within(v, slo, shi) and not within(v, rlo, rhi)]
+        outside = outside[:1] + outside[-1:] if len(outside) > 1 else outside
+        name = 'bounds/%s/recv(%s,%s)/send(%s,%s)' % (tname, rlo, rhi, slo, shi)
+        out.append((name, mk(rlo, rhi), mk(slo, shi), inside, outside))
+        if 0 in (rlo, rhi) and (rlo, rhi) != (slo, shi) and (slo, shi) in ((None, None), (None, 5), (-3, None), (0, None), (None, 0)):
+          wrap = lambda f: (lambda v: f(v))
+          out.append((name + '/in-list', T.List(mk(rlo, rhi)), T.List(mk(slo, shi)), [[v] for v in inside], [[v] for v in outside]))
+          out.append((name + '/in-tuple', T.Tuple([mk(rlo, rhi)]), T.Tuple([mk(slo, shi)]), [(v,) for v in inside], [(v,) for v in outside]))
+          out.append((name + '/in-dict', T.Dict([('k', mk(rlo, rhi))]), T.Dict([('k', mk(slo, shi))]), [{'k': v} for v in inside], [{'k': v} for v in outside]))
+  return out
+
 def typed_sender_cases(rng, full):
   """Every relation x {sender a typed pg.Dict, a typed pg.List} x receiver {Dict field, List element, Object attribute} x write path
   (incl. construction) x {content both specs accept, content only the sender's spec accepts}, each followed by a write into the stored
@@ -1693,7 +1717,8 @@ def typed_sender_cases(rng, full):
   T = pg().typing
   out = []
   n = 0
-  for rname, R, S, inside, outside in typed_sender_relations():
+  for idx, (rname, R, S, inside, outside) in enumerate(typed_sender_relations() + numeric_bound_relations()):
+    grid = rname.startswith('bounds/')
     try:
       rt = Table.tree(R); Rspec = c04.build(rt)
     except (ValueError, c04.Unrenderable):
@@ -1702,11 +1727,14 @@ def typed_sender_cases(rng, full):
     if not ok: continue
     r_ok = ok[0]
     for shape in ('dict', 'list'):
+      if grid and not full and shape != ('dict', 'list')[idx % 2]: continue      # the bound grid, quick tier: one shape, one receiver per relation
       mk = (lambda leaf: T.Dict([('v', copy.deepcopy(leaf))])) if shape == 'dict' else (lambda leaf: T.List(copy.deepcopy(leaf)))
       wrap = (lambda c: {'v': c}) if shape == 'dict' else (lambda c: [c])
       contents = [('inside', c) for c in inside[:1]] + [('outside', c) for c in outside[:2]]
+      if grid and not full: contents = [('outside', c) for c in outside[:1]] or contents[:1]
       later = outside[0] if outside else None
       for recv in ('Dict', 'List', 'Object'):
+        if grid and not full and recv != ('Dict', 'List', 'Object')[(idx // 2) % 3]: continue
         try:
           if recv == 'Object':
             tb = Table((T.Dict([('x', mk(R)), ('y', T.Any(default=None))]), None, None)); rref = tb.cls[0]
@@ -1731,7 +1759,7 @@ def typed_sender_cases(rng, full):
           paths = [('setattr', [D.OSET, Pp(0), ek('x'), val], 'x'), ('rebind', [D.REBIND, Pp(0), [[[ek('x')], val]]], 'x'), ('construction', None, 'x')]
         for cname, c in contents:
           n += 1
-          chosen = paths if full else [paths[n % len(paths)]]
+          chosen = [paths[n % len(paths)]] if not full else [paths[n % len(paths)], paths[(n + 3) % len(paths)]] if grid else paths
           for pname, op, child in chosen:
             try:
               sender = troot(0 if shape == 'dict' else 1, sref, wrap(c))
@@ -2020,6 +2048,7 @@ def run(ctx):
   rsweep = ref_sweep_cases(rng)
   tsweep = [(lab, c) for lab, c in typed_sender_cases(rng, bool(ctx.thorough)) if all(r[0] != 2 for r in c[3]) and all(op[0] != LSETSLICE for _, op in c[4])]
   for lab, c in rsweep + tsweep:
+    if lab.startswith('typed-sender/bounds/') and rng.random() > 0.3: continue      # (the bound grid runs in full through the oracle below)
     if ctx.thorough or rng.random() < 0.1:
       c[0] = list(quirks); cases.append(c); kinds.append('sweep-by-reference:' + lab.split('/')[0])
   nested = nested_object_cases()
